@@ -3,6 +3,8 @@ package eng
 import (
 	"fmt"
 	"net/http"
+
+	"github.com/issue9/mux/v9"
 	"sort"
 	"strconv"
 	"strings"
@@ -20,6 +22,16 @@ var progCodes = []int{200, 201, 202, 204, 301, 404, 500}
 var progSizes = []int{0, 1, 2, 7, 64, 1000, 4096}
 
 func genProg(r *ref.R) *mon.Prog {
+	p := genProgPlain(r)
+	if r.Chance(1, 6) { // the handler panics somewhere (recovery will be configured)
+		k := r.Intn(len(p.Steps) + 1)
+		p.Steps = append(p.Steps[:k:k], append([]mon.Step{{Op: "panic"}}, p.Steps[k:]...)...)
+		p.Steps = p.Steps[:k+1]
+	}
+	return p
+}
+
+func genProgPlain(r *ref.R) *mon.Prog {
 	p := &mon.Prog{}
 	for n := r.Intn(9); n > 0; n-- {
 		switch r.Intn(10) {
@@ -85,7 +97,22 @@ func progShape(p *mon.Prog) (explicitStatusFirst, writes int, lateHeader, lateSt
 }
 
 func checkHeadProgram(c *Ctx, p *mon.Prog, viaFacade int) {
-	s := NewSys(noneIC, false, false)
+	var opts []mux.Option
+	panics := false
+	for _, st := range p.Steps {
+		if st.Op == "panic" {
+			panics = true
+		}
+	}
+	if panics {
+		// HEAD combined with the recovery option: what the recovery function writes is part of the response for GET and HEAD alike
+		opts = append(opts, mux.WithRecovery(func(w http.ResponseWriter, v any) {
+			w.Header().Set("X-Recovered", "1")
+			http.Error(w, "Internal Server Error", http.StatusInternalServerError)
+		}))
+		c.Class("program_panics_with_recovery")
+	}
+	s := NewSys(noneIC, false, false, opts...)
 	pattern := "/p/{id}/x"
 	var h *mon.Hnd
 	switch viaFacade {
@@ -136,8 +163,11 @@ func checkHeadProgram(c *Ctx, p *mon.Prog, viaFacade int) {
 		}
 		if !handlerSetsCL {
 			c.Class("implicit_header_content_length_checked")
+			if panics {
+				total = len(og.Body) // what the recovery function wrote belongs to the body as well (GET delivered exactly these bytes)
+			}
 			if got := oh.Header.Get("Content-Length"); got != strconv.Itoa(total) {
-				c.Violate(fmt.Sprintf("HEAD Content-Length %q, handler wrote %d body bytes without calling WriteHeader", got, total), detail())
+				c.Violate(fmt.Sprintf("HEAD Content-Length %q, %d body bytes were written without calling WriteHeader", got, total), detail())
 				return
 			}
 		}
